@@ -167,7 +167,19 @@ func H_C18(scheme, n int) {
 	vAssume(int(no)+int(nl) <= 65535)
 	newpos := PField{Offs: OffsT(no), Len: OffsT(nl)}
 	ok := u.AdjustOffs(newpos)
-	need := long.Len
+	relocCheck(&u0, &u, newpos, ok, long.Len)
+	if ok {
+		vReach("moved")
+	} else {
+		vReach("refused")
+	}
+	vReach("end")
+}
+
+// relocCheck: the relocation contract of AdjustOffs (u0 before, u after).
+func relocCheck(pu0, pu *PsipURI, newpos PField, ok bool, need0 OffsT) {
+	u0, u := *pu0, *pu
+	need := need0
 	if ok {
 		vAssert("accepted-only-if-it-fits", newpos.Len >= need)
 		d := newpos.Offs - u0.Scheme.Offs
@@ -191,11 +203,29 @@ func H_C18(scheme, n int) {
 			vAssert("headers-moved", u.Headers.Offs == u0.Headers.Offs+d && u.Headers.Len == u0.Headers.Len)
 		}
 		vAssert("numbers-kept", u.PortNo == u0.PortNo && u.URIType == u0.URIType)
-		vReach("moved")
 	} else {
 		vAssert("refused-only-if-too-short", newpos.Len < need)
 		vAssert("refused-unchanged", u == u0)
-		vReach("refused")
 	}
+}
+
+// H_C11_reloc: a parsed URI moved to offset k (symbolic, any 16-bit value
+// that keeps the text inside the addressing limit) of a buffer that holds the
+// same text there: every component shifted by exactly k, numbers unchanged.
+func H_C11_reloc(scheme, n int) {
+	buf := vURIBuf(scheme, n)
+	var u PsipURI
+	e, _ := ParseURI(buf, &u)
+	if e != NoURIErr {
+		vReach("rejected")
+		return
+	}
+	u0 := u
+	k := vU16()
+	vAssume(int(k)+len(buf) <= 65535)
+	newpos := PField{Offs: OffsT(k), Len: OffsT(len(buf))}
+	ok := u.AdjustOffs(newpos)
+	vAssert("relocation-onto-a-span-of-the-text-length-accepted", ok)
+	relocCheck(&u0, &u, newpos, ok, u0.Long().Len)
 	vReach("end")
 }
